@@ -25,6 +25,9 @@ fn main() {
         }
     });
     if r.is_err() {
+        if mc::panics::escaped_subject_panic().is_some() {
+            mc::panics::report_escaped_subject_panic(&id);
+        }
         println!("MACHINERY-ERROR property={} the harness itself panicked (see stderr)", id);
         std::process::exit(2);
     }
